@@ -44,7 +44,7 @@ def gen_config(rng):
         j["level5"] = dict(zip(["active_area_left_offset", "active_area_right_offset", "active_area_top_offset", "active_area_bottom_offset"], v))
         c.append("l5=" + ":".join(map(str, v)))
     if rng.chance(3, 4):
-        v = [rng.choice([1000, 4000, 10000] + ([] if clean else [10001])), rng.choice([1, 50]), rng.below(5000), rng.below(1000)]
+        v = [rng.choice([1000, 2000, 4000, 10000, 600] + ([] if clean else [10001])), rng.choice([1, 50, 10, 11, 9, 49, 51, 0]), rng.below(5000), rng.below(1000)]
         j["level6"] = dict(zip(["max_display_mastering_luminance", "min_display_mastering_luminance",
                                 "max_content_light_level", "max_frame_average_light_level"], v))
         c.append("l6=" + ":".join(map(str, v)))
